@@ -403,3 +403,36 @@ Example merge_and_levels_apply :
   Z.of_nat (length ex_rows) <= the_limit /\ Forall row_in_range ex_rows /\
   tree_good ex_tree /\ root_total ex_tree < two63 /\ length (bfs ex_tree) = 6%nat /\ root_total ex_tree = 12.
 Proof. exact ex_tree_hypotheses. Qed.
+
+(* ---- the re-indexing of the pprof payload merge (ProfService.MergeProfiles: sanitizeProfile, then the string, function,
+   mapping, location and sample tables of ProfileMergeV2; model/ProfRewrite.v) *)
+From Qryn Require Import model.ProfRewrite proofs.ProfRewriteProofs.
+
+(* payload_merge_is_sum.  A profile denotes weighted stacks: a sample's stack resolved, through the profile's own location,
+   function and string tables, to the functions (start line, name, system name, file name) of the lines of its locations;
+   [weight P k p] adds up the values of sample type k over the samples of p whose resolved stack satisfies P.  For ANY
+   number of payloads, each with its own string table and ids, merged in the order given (merge_all = the loop of
+   MergeProfiles with exact key comparisons: the 64-bit hashes of the printed keys are taken as collision free) without a
+   refusal, every payload that takes part being sane after sanitizeProfile (ids 1..n, references in range: what sanitizeProfile
+   establishes for the payloads the writer stores -- evaluated on every payload of every run) with n sample types, and fewer than
+   2^32 merged functions (hashLines keeps 32 bits of a function id): for EVERY predicate P on resolved stacks -- in particular
+   "is this stack" -- and every sample type k the merged profile gives the selected stacks the sum of the weights the payloads
+   give them (modulo 2^64, as int64 += computes).  So the merged profile denotes the multiset union of the input samples with
+   resolved stacks: nothing is lost, nothing moves to another stack. *)
+Theorem payload_merge_is_sum : forall (ps : list pprofile) (st : mstate) (n : nat),
+  merge_all exact_keqs mstate0 ps = inl st -> payloads_sane n ps -> Z.of_nat (length (ms_funs st)) < two32 ->
+  forall (P : list (list fden) -> bool) (k : nat), (k < n)%nat ->
+  eqm (ProfRewrite.weight P k (merged_profile st)) (payload_weights P k ps).
+Proof. exact ProfRewriteProofs.payload_merge_is_sum. Qed.
+Print Assumptions payload_merge_is_sum.
+
+(* ... in any order: two merges of the same payloads in different orders (different merged string tables, ids and sample
+   order) give every selection of resolved stacks the same weight. *)
+Theorem payload_merge_order_irrelevant : forall (ps ps' : list pprofile) (st st' : mstate) (n : nat),
+  Permutation ps ps' ->
+  merge_all exact_keqs mstate0 ps = inl st -> merge_all exact_keqs mstate0 ps' = inl st' -> payloads_sane n ps ->
+  Z.of_nat (length (ms_funs st)) < two32 -> Z.of_nat (length (ms_funs st')) < two32 ->
+  forall (P : list (list fden) -> bool) (k : nat), (k < n)%nat ->
+  eqm (ProfRewrite.weight P k (merged_profile st)) (ProfRewrite.weight P k (merged_profile st')).
+Proof. exact ProfRewriteProofs.payload_merge_order_irrelevant. Qed.
+Print Assumptions payload_merge_order_irrelevant.
